@@ -47,7 +47,7 @@ def main(path):
             from checks import rt
             exe = rt.build_driver(build, r.get("bufsz"))
             cd = sc.sub("case")
-            rc, err, log = rt.run_case(exe, cd, r["program"], r.get("short", "-"), tmpdir=bool(r.get("tmpdir")))
+            rc, err, log = rt.run_case(exe, cd, r["program"], r.get("short", "-"), tmpdir=bool(r.get("tmpdir")), close0=bool(r.get("close0")))
             print("driver exit:", rc, err[-200:])
             print("C01 oracle:", rt.check_fidelity(cd, log))
             print("C02 oracle:", rt.check_valid(cd) if "DONE" in log else "n/a")
